@@ -13,6 +13,7 @@ from __future__ import annotations
 
 import itertools
 import random as pyrandom
+import os
 import sys
 import types
 from abc import ABC
@@ -214,6 +215,8 @@ def materialise(desc: dict) -> Built:
     if desc.get("python"):
         return PYTHON_GRAMMARS[desc["python"]](desc)
 
+    if os.environ.get("GEV_FORCE_STRING_ANNOTATIONS"):  # exploration switch (never set by a registered command)
+        desc = dict(desc, _string_annotations=True)
     modname = f"gev_dyn_{next(_counter)}_{desc.get('name', 'g')}"
     mod = types.ModuleType(modname)
     sys.modules[modname] = mod
@@ -252,6 +255,7 @@ def materialise(desc: dict) -> Built:
 
     if desc.get("_string_annotations"):
         setattr(mod, "_gev_type", _gev_type)
+        setattr(mod, "_gev_thunks", thunks)
     for p in desc["prods"]:
         cls = ns[p["name"]]
         if desc.get("_string_annotations"):
@@ -632,7 +636,11 @@ def apply_retype(built: Built, desc2: dict) -> Built:
         cls = built.ns[p_new["name"]]
         for (fn, t_old), (_, t_new) in zip(p_old["fields"], p_new["fields"]):
             if t_old != t_new:
-                cls.__init__.__annotations__[fn] = build_type(t_new, built.ns)
+                if hasattr(built.module, "_gev_thunks"):  # a grammar declared with string annotations is re-declared with one
+                    built.module._gev_thunks.append(t_new)
+                    cls.__init__.__annotations__[fn] = f"_gev_type({len(built.module._gev_thunks) - 1})"
+                else:
+                    cls.__init__.__annotations__[fn] = build_type(t_new, built.ns)
                 if p_new.get("dataclass", True) and hasattr(cls, "__annotations__"):
                     cls.__annotations__[fn] = cls.__init__.__annotations__[fn]
     return Built(desc2, built.module, built.ns, built.classes, built.start, {p["name"]: [(fn, ft) for fn, ft in p["fields"]] for p in desc2["prods"]})
